@@ -219,6 +219,11 @@ pub fn handle(op: &str, a: &[&str]) -> Option<String> {
         ("i.to_biguint", [x]) => opt_u(&parse_i(x)?.to_biguint()),
         ("u.to_bigint", [x]) => opt_i(&parse_u(x)?.to_bigint()),
         ("i.from_u", [x]) => ok_i(&BigInt::from(parse_u(x)?)),
+        // api-coverage: the TRAIT impls `ToBigUint for BigInt` (the method call above resolves to the inherent
+        // `BigInt::to_biguint`), `ToBigUint for BigUint`, `ToBigInt for BigInt`
+        ("i.to_biguint_t", [x]) => opt_u(&ToBigUint::to_biguint(&parse_i(x)?)),
+        ("u.to_biguint_t", [x]) => opt_u(&ToBigUint::to_biguint(&parse_u(x)?)),
+        ("i.to_bigint_t", [x]) => opt_i(&ToBigInt::to_bigint(&parse_i(x)?)),
         #[cfg(num_bigint_verif)]
         ("u.high_bits", [x]) => format!("ok {:x}", num_bigint::verif::high_bits_to_u64(&parse_u(x)?)),
         ("u.to_f64", [x]) => {
